@@ -116,7 +116,19 @@ func (e *callNilEngine) runPanicVal(kind, src string) string {
 	if cerr == nil {
 		return "no-error\t!a bound function panicked and the call returned no error"
 	}
-	if kind != "asis" { // (asis: the original IS an interpreter error value; comparing those is not the binder's business)
+	if kind == "asis" && (src == "nth" || src == "throw" || src == "unbound") {
+		// the panic value IS a positioned interpreter error (its payload a Go error or a string: comparable): the caller's
+		// error still wraps THAT value
+		if why := safeRunInline(func() string {
+			if !errors.Is(cerr, orig) {
+				return "chain-lost"
+			}
+			return ""
+		}); why != "" {
+			return fmt.Sprintf("%s\t!a bound function panicked with the (positioned) interpreter error it got from a callback (%s): the caller's error must still wrap that value (errors.Is): got %s", why, src, oneLine(cerr.Error())[:min(len(oneLine(cerr.Error())), 160)])
+		}
+	}
+	if kind != "asis" { // (asis with a map payload: comparing uncomparable payloads is not the binder's business)
 		ok := safeRunInline(func() string {
 			if !errors.Is(cerr, orig) {
 				return "chain-lost"
